@@ -3,6 +3,7 @@ import Texel.Model.Index
 import Texel.Model.Small
 import Texel.Model.Pipe
 import Texel.Model.Dispatch
+import Texel.Model.Cli
 /-! `texeldrv`: the executable model behind a one-line-in, one-line-out protocol (core-only, links as `lean_exe`).
 The Go harness sends the same operation lines to the real code and to this driver and compares the answers. -/
 open Texel
@@ -162,6 +163,10 @@ def handle (line : String) : String :=
       let (s, _) := pipeRun c fs sd
       (if s.returned && c.targets.all (fun tm => s.wDone tm) then "returned " else "stuck ") ++ showReceived c s.received
     | _, _ => "bad-op"
+  | ["tpath", p, ids] =>
+    match ids.toNat? with
+    | some id => Cli.targetPath p id
+    | none => "bad-op"
   | ["page", ps, ns] =>
     match ps.toNat?, ns.toNat? with
     | some p, some n =>
